@@ -23,6 +23,8 @@ pub struct World {
     pub runner_thread: Option<std::thread::ThreadId>,
     pub in_execution: bool,
     pub tail_requests: u32,
+    /// position in the entropy plan (responses consumed so far)
+    pub plan_pos: usize,
     /// "stall" policy: (task, first step at which it may run again)
     pub stalled: Vec<(u32, u32)>,
     pub stalls_left: u32,
@@ -49,6 +51,7 @@ pub fn init(sc: E2Scenario, history_path: String) {
         runner_thread: None,
         in_execution: false,
         tail_requests: 0,
+        plan_pos: 0,
         stalled: Vec::new(),
         stalls_left: 0,
         stall_rng: Rng::new(0),
@@ -259,22 +262,6 @@ pub unsafe extern "C" fn getentropy(buf: *mut u8, len: usize) -> c_int {
         let seq = w.next_seq;
         w.next_seq += 1;
         let step = w.steps;
-        let (resp, src): (Option<EntResp>, &str) = if len > 256 {
-            (None, "toolong")
-        } else if (seq as usize) < w.sc.entropy.len() {
-            (Some(w.sc.entropy[seq as usize].clone()), "plan")
-        } else if let Some(t) = &w.sc.tail {
-            if w.hist.generous_at_step.is_none() {
-                w.hist.generous_at_step = Some(step);
-            }
-            w.tail_requests += 1;
-            if w.sc.generous_requests > 0 && w.tail_requests > w.sc.generous_requests {
-                w.stop_reason = Some("liveness");
-            }
-            (Some(t.clone()), "tail")
-        } else {
-            (None, "exhausted")
-        };
         let out = std::slice::from_raw_parts_mut(buf, len);
         let mut ev = EntEvent {
             seq,
@@ -283,34 +270,71 @@ pub unsafe extern "C" fn getentropy(buf: *mut u8, len: usize) -> c_int {
             ok: false,
             errno: 0,
             bytes: String::new(),
-            src: src.to_string(),
+            src: "plan".to_string(),
             step,
         };
-        let r = match resp {
-            Some(EntResp::Ok(h)) => {
-                let bytes = hex::decode(&h).unwrap_or_default();
-                let n = len.min(bytes.len());
-                out[..n].copy_from_slice(&bytes[..n]);
-                for b in out[n..].iter_mut() {
-                    *b = 0xA5;
+        // The source is a byte stream: a request larger than one planned response continues with
+        // the following ones, a smaller one gets a prefix (the rest of that response is gone), a
+        // failure anywhere in the stretch fails the whole request. Same as the preload shim.
+        let mut r = (0, 0);
+        let mut filled = 0usize;
+        let mut from_tail = false;
+        if len > 256 {
+            r = (-1, libc::EIO);
+            ev.src = "toolong".into();
+        }
+        while r.0 == 0 && filled < len {
+            let resp = if w.plan_pos < w.sc.entropy.len() {
+                w.plan_pos += 1;
+                Some(w.sc.entropy[w.plan_pos - 1].clone())
+            } else if let Some(t) = &w.sc.tail {
+                from_tail = true;
+                Some(t.clone())
+            } else {
+                None
+            };
+            match resp {
+                Some(EntResp::Ok(h)) => {
+                    let bytes = hex::decode(&h).unwrap_or_default();
+                    if bytes.is_empty() {
+                        for b in out[filled..].iter_mut() {
+                            *b = 0xA5;
+                        }
+                        filled = len;
+                    } else {
+                        let n = (len - filled).min(bytes.len());
+                        out[filled..filled + n].copy_from_slice(&bytes[..n]);
+                        filled += n;
+                    }
                 }
-                ev.ok = true;
-                ev.bytes = hex::encode(&*out);
-                (0, 0)
+                Some(EntResp::Fail { errno, partial }) => {
+                    let bytes = hex::decode(&partial).unwrap_or_default();
+                    let n = (len - filled).min(bytes.len());
+                    out[filled..filled + n].copy_from_slice(&bytes[..n]);
+                    r = (-1, errno);
+                }
+                None => {
+                    r = (-1, libc::ENOSYS);
+                    ev.src = "exhausted".into();
+                }
             }
-            Some(EntResp::Fail { errno, partial }) => {
-                let bytes = hex::decode(&partial).unwrap_or_default();
-                let n = len.min(bytes.len());
-                out[..n].copy_from_slice(&bytes[..n]);
-                ev.errno = errno;
-                (-1, errno)
+        }
+        if from_tail {
+            ev.src = "tail".into();
+            if w.hist.generous_at_step.is_none() {
+                w.hist.generous_at_step = Some(step);
             }
-            None => {
-                let e = if len > 256 { libc::EIO } else { libc::ENOSYS };
-                ev.errno = e;
-                (-1, e)
+            w.tail_requests += 1;
+            if w.sc.generous_requests > 0 && w.tail_requests > w.sc.generous_requests {
+                w.stop_reason = Some("liveness");
             }
-        };
+        }
+        if r.0 == 0 {
+            ev.ok = true;
+            ev.bytes = hex::encode(&*out);
+        } else {
+            ev.errno = r.1;
+        }
         w.hist.entropy.push(ev);
         r
     });
